@@ -3,7 +3,10 @@
 package upsidedown
 
 import (
+	"errors"
+
 	rt "github.com/blevesearch/bleve/v2/internal/verifrt"
+	store "github.com/blevesearch/upsidedown_store_api"
 	"google.golang.org/protobuf/proto"
 )
 
@@ -169,4 +172,98 @@ func VerifH_C01_UpsideDownDelete() {
 	rt.Assert(seen[string(back.Key())] == 1, "the back index row is deleted")
 	rt.Assert(len(rows) == n+1, "nothing else is deleted")
 	rt.Cover(had[3] && had[4] && had[5], "three-stored-fields")
+}
+
+// ---- C11: store readers and writers are released ----
+
+type verifKV struct {
+	readersOpen, writersOpen int
+	readers, writers         int
+}
+
+type verifKVReader struct {
+	store.KVReader
+	s      *verifKV
+	getErr error
+	closed int
+}
+
+func (r *verifKVReader) Get(key []byte) ([]byte, error) { return nil, r.getErr }
+func (r *verifKVReader) Close() error {
+	r.closed++
+	r.s.readersOpen--
+	return nil
+}
+
+type verifKVWriter struct {
+	store.KVWriter
+	s       *verifKV
+	execErr error
+}
+
+type verifKVBatch struct{ store.KVBatch }
+
+func (b *verifKVBatch) Set(key, val []byte)   {}
+func (b *verifKVBatch) Delete(key []byte)     {}
+func (b *verifKVBatch) Merge(key, val []byte) {}
+func (b *verifKVBatch) Reset()                {}
+func (b *verifKVBatch) Close() error          { return nil }
+
+func (w *verifKVWriter) NewBatch() store.KVBatch                { return &verifKVBatch{} }
+func (w *verifKVWriter) ExecuteBatch(b store.KVBatch) error     { return w.execErr }
+func (w *verifKVWriter) Close() error                           { w.s.writersOpen--; return nil }
+func (s *verifKV) Close() error                                 { return nil }
+func (s *verifKV) Reader() (store.KVReader, error) {
+	if rt.Choice("reader_fails", 2) == 1 {
+		return nil, errVerif
+	}
+	s.readers++
+	s.readersOpen++
+	r := &verifKVReader{s: s}
+	if rt.Choice("get_fails", 2) == 1 {
+		r.getErr = errVerif
+	}
+	return r, nil
+}
+func (s *verifKV) Writer() (store.KVWriter, error) {
+	if rt.Choice("writer_fails", 2) == 1 {
+		return nil, errVerif
+	}
+	s.writers++
+	s.writersOpen++
+	w := &verifKVWriter{s: s}
+	if rt.Choice("execute_fails", 2) == 1 {
+		w.execErr = errVerif
+	}
+	return w, nil
+}
+
+var errVerif = errors.New("verif: store failure")
+
+// VerifH_C11_UpsideDownReleases: upsidedown's Delete (of an id the index does not hold, or whose
+// look-up fails), SetInternal, DeleteInternal and GetInternal over a stub KV store whose every call
+// may fail: when the call returns, every store reader and writer it opened has been closed (a reader
+// left open pins the store - with the default boltdb store a later Close blocks for ever), and the
+// writer lock is free.
+func VerifH_C11_UpsideDownReleases() {
+	kv := &verifKV{}
+	udc := &UpsideDownCouch{store: kv, stats: &indexStat{}}
+	switch rt.Choice("op", 4) {
+	case 0:
+		_ = udc.Delete("nosuchdoc")
+	case 1:
+		_ = udc.SetInternal([]byte("k"), []byte("v"))
+	case 2:
+		_ = udc.DeleteInternal([]byte("k"))
+	case 3:
+		r, err := udc.Reader()
+		if err == nil {
+			_, _ = r.GetInternal([]byte("k"))
+			_ = r.Close()
+		}
+	}
+	rt.Assert(kv.readersOpen == 0, "every store reader opened by the call has been closed when it returns")
+	rt.Assert(kv.writersOpen == 0, "every store writer opened by the call has been closed when it returns")
+	rt.Assert(rt.MutexFree(&udc.writeMutex), "the writer lock is free when the call has returned")
+	rt.Cover(kv.readers == 1 && kv.readersOpen == 0, "a-reader-was-opened-and-closed")
 }
